@@ -80,7 +80,7 @@ def main():
             res[cid] = r.returncode
             print("mutant %-28s check %s: rc=%d in %.1fs %s" % (name, cid, r.returncode, time.time() - t0,
                                                                  "KILLED" if r.returncode == 1 else ("SURVIVED" if r.returncode == 0 else "ERROR")))
-            for l in lines[:6]:
+            for l in [x for x in r.stdout.splitlines() if x.startswith("  ")][:0] + lines[:6]:
                 print("    " + l[:220])
             if r.returncode == 2:
                 print(r.stdout[-1500:], r.stderr[-1500:])
